@@ -3,6 +3,7 @@ package main
 import (
 	"fmt"
 	"hash/fnv"
+	"regexp"
 	"runtime"
 	"sort"
 	"strconv"
@@ -133,6 +134,8 @@ func matchesDigest(ms engine.Matches, withFilename bool, strip string) string {
 	return sb.String()
 }
 
+var pathRe = regexp.MustCompile(`/[^\s:]+`)
+
 // panicKey builds the stable site key of a panic detail "message @function":
 // the message with digits masked, cut to 50 characters, plus the full name of
 // the innermost vore function.
@@ -141,6 +144,7 @@ func panicKey(detail string) string {
 	if i := strings.LastIndex(detail, " @"); i >= 0 {
 		msg, fn = detail[:i], detail[i+2:]
 	}
+	msg = pathRe.ReplaceAllString(msg, "<path>")
 	msg = digitsRe.ReplaceAllString(msg, "#")
 	if len(msg) > 50 {
 		msg = msg[:50]
@@ -177,6 +181,18 @@ func doRun(v *libvore.Vore, text string) (out Outcome) {
 	}()
 	ms := v.Run(text)
 	return Outcome{Class: "ok", Digest: matchesDigest(ms, false, ""), N: len(ms)}
+}
+
+// doRunKeep is doRun that also hands the result list to the caller.
+func doRunKeep(v *libvore.Vore, text string) (out Outcome, ms engine.Matches) {
+	defer func() {
+		if r := recover(); r != nil {
+			out = panicOutcome(r)
+			ms = nil
+		}
+	}()
+	ms = v.Run(text)
+	return Outcome{Class: "ok", Digest: matchesDigest(ms, false, ""), N: len(ms)}, ms
 }
 
 func doRunFiles(v *libvore.Vore, files []string, mode engine.ReplaceMode, strip string) (out Outcome, ms engine.Matches) {
